@@ -6,10 +6,13 @@ let do_hist () =
   let id = next () in
   let n = nexti () in let nb = nexti () in let nn = nexti () in let sp = nexti () in
   let bks = List.init nb (fun _ -> z_of_int (nexti ())) in
-  let fixed = nexti () <> 0 in
+  let flags = nexti () in
+  let fixed = flags land 1 <> 0 in
+  let withgen = flags land 2 <> 0 in
   let l = nexti () in
   let e = toyQ (z_of_int n) (z_of_int nn) (z_of_int sp) bks fixed in
   let s = ref (fresh e) in
+  let sg = ref (fresh e) in
   Printf.printf "case %s\n" id;
   for k = 0 to l - 1 do
     let kind = next () in
@@ -17,8 +20,11 @@ let do_hist () =
     let p = lfun (q_of_tok "0") (nextqs (nb * n)) in
     let o = match kind with "W" -> Wake p | "P" -> Pad p | _ -> CSR (cut, p) in
     s := step e o !s;
+    if withgen then sg := gstep e o !sg;
     let same = (observe e o !s = observe e o (step e o (fresh e))) in
     Printf.printf "op %d %s same %d\n" k kind (if same then 1 else 0);
+    (* the programs generated from the current source give the same state (all seven buffers) *)
+    if withgen then Printf.printf "gen %d\n" (if h_all e !s = h_all e !sg then 1 else 0);
     print_qs "bp" (h_bp e !s);
     print_string "fp";
     List.iter (fun m -> print_char ' ';
@@ -28,4 +34,49 @@ let do_hist () =
   done;
   print_string "end\n"
 
-let () = run_main ["hist", do_hist]
+(* hist2 <id> <n> <nb> b.. <N1> <sp1> <N2> <sp2> <L>  L x ( <obj> W|P|C <cutoff> p[nb*n] | <obj> G <getter> ) *)
+let getter_of = function 0 -> GWake | 1 -> GWakePadded | 2 -> GPadded | 3 -> GSpectrum | _ -> GPower
+
+let do_hist2 () =
+  let id = next () in
+  let n = nexti () in let nb = nexti () in
+  let bks = List.init nb (fun _ -> z_of_int (nexti ())) in
+  let n1 = nexti () in let sp1 = nexti () in
+  let n2 = nexti () in let sp2 = nexti () in
+  let l = nexti () in
+  let e1 = toyQ (z_of_int n) (z_of_int n1) (z_of_int sp1) bks true in
+  let e2 = toyQ (z_of_int n) (z_of_int n2) (z_of_int sp2) bks true in
+  let s = ref (h_fresh2 e1 e2) in
+  let last = [| None; None |] in
+  Printf.printf "case %s\n" id;
+  for k = 0 to l - 1 do
+    let wi = nexti () in
+    let w = if wi = 1 then Obj1 else Obj2 in
+    let e = if wi = 1 then e1 else e2 in
+    let kind = next () in
+    let before_other = h_sel (if wi = 1 then Obj2 else Obj1) !s in
+    if kind = "G" then begin
+      let g = getter_of (nexti ()) in
+      let before = h_sel w !s in
+      s := h_step2 e1 e2 w (XGet g) !s;
+      let fr = match last.(wi - 1) with None -> fresh e | Some o -> step e o (fresh e) in
+      let det = match last.(wi - 1) with None -> true | Some o -> h_reads o g in
+      let same = (not det) || (h_gread e g (h_sel w !s) = h_gread e g fr) in
+      Printf.printf "op %d %d G same %d\nself %d\n" k wi (if same then 1 else 0)
+        (if h_all e before = h_all e (h_sel w !s) then 1 else 0)
+    end else begin
+      let cut = nextq () in
+      let p = lfun (q_of_tok "0") (nextqs (nb * n)) in
+      let o = match kind with "W" -> Wake p | "P" -> Pad p | _ -> CSR (cut, p) in
+      s := h_step2 e1 e2 w (XCall o) !s;
+      last.(wi - 1) <- Some o;
+      let same = (observe e o (h_sel w !s) = observe e o (step e o (fresh e))) in
+      Printf.printf "op %d %d %s same %d\n" k wi kind (if same then 1 else 0)
+    end;
+    let eo = if wi = 1 then e2 else e1 in
+    Printf.printf "other %d\n" (if h_all eo before_other = h_all eo (h_sel (if wi = 1 then Obj2 else Obj1) !s) then 1 else 0);
+    print_qs "bp" (h_bp e (h_sel w !s))
+  done;
+  print_string "end\n"
+
+let () = run_main ["hist", do_hist; "hist2", do_hist2]
